@@ -7,6 +7,16 @@ both converter entry points and every float semantics `F`.
 The unchanged code violates the property in several ways; for each the full statement is kept as
 a `def … : Prop`, refuted by a concrete witness, and the strongest true part is proved under a
 decidable guard (`clean`, `setGuards`, `callGuards`, all lists of named findings).
+
+Seven of the recorded defects were repaired in risor since (uint64 ≥ 2⁶³ wrapping negative, the
+untyped nil global, `risor.Eval` panicking on a global without a converter, surplus method
+arguments, integers that do not fit the target integer type, lists longer than the array,
+declared types of a basic kind such as time.Duration).  For
+each the model follows the repaired code, its disjunct is gone from the guards (the partial
+theorems are stronger), the counterexample is replaced by the positive statement
+(`C08_uint_from_exact`, `C08_nil_global`, `C08_global_error_is_error`, `C08_surplus_rejected`,
+`C08_int_write_exact`, `C08_array_longer_rejected`, `C08_named_scalar_unguarded`), and what the code did before is kept as a
+`preFix…` definition with a checked `C08_fixed_…` statement.
 -/
 namespace Risor.C08
 
@@ -24,14 +34,68 @@ def C08_full_roundtrip : Prop :=
   ∀ (F : FOps) (m : Mode) (ty : GoTy) (v : GoVal), hasTy ty v = true →
     specRoundTrip F ty v (implRoundTrip F m ty v) = true
 
-/-- `WithGlobal("x", time.Second)`: the kind converter asserts `int64` on a `time.Duration` and
-    panics — for every float semantics. -/
-theorem C08_counterexample_named_duration (F : FOps) :
-    fromGlobal F (some (.named 1 (.int .w64), .int 1000000000)) = .panic := rfl
+/-- **Repaired (C08-named-type-panic, declared types of a basic kind).**  A declared type whose
+    underlying type is a basic type — `time.Duration`, `type MyInt int`, `type Name string`, at any
+    nesting of declarations — carries no type-level guard any more: it crosses like its basic type
+    (`C08_partial_roundtrip`, `C08_partial_write`, … apply to it). -/
+theorem C08_named_scalar_unguarded : ∀ (ty : GoTy), isScalarKind ty = true → tyGuards ty = []
+  | .named id u, h => by
+    have hu : isScalarKind u = true := by simpa [isScalarKind, under] using h
+    have ih := C08_named_scalar_unguarded u hu
+    obtain ⟨h1, h2⟩ := tyGuards_nil u ih
+    simp [tyGuards, namedBad, ptrIfaceBad, hu, h1, h2]
+  | .bool, _ | .int _, _ | .uint _, _ | .f32, _ | .f64, _ | .str, _ => by
+    simp [tyGuards, namedBad, ptrIfaceBad]
+  | .time, h | .iface, h | .chan, h | .ptr _, h | .slice _, h | .array _ _, h | .mapStr _, h
+  | .struct _, h => by simp [isScalarKind, under] at h
 
-/-- `uint64(1) << 63` reaches the script as −9223372036854775808 -/
-theorem C08_counterexample_uint64_wrap (F : FOps) :
-    fromGo F .create (.uint .w64) (.int 9223372036854775808) = .ok (.int (-9223372036854775808)) := rfl
+/-- `WithGlobal("x", time.Second)`: the script sees 1000000000, and handing it back gives Go a
+    `time.Duration` of that value — for every float semantics. -/
+theorem C08_named_duration (F : FOps) :
+    fromGlobal F (some (.named 1 (.int .w64), .int 1000000000)) = .ok (.int 1000000000) ∧
+    implRoundTrip F .create (.named 1 (.int .w64)) (.int 1000000000)
+      = .ok (.int 1000000000, .ok (.int 1000000000)) := ⟨rfl, rfl⟩
+
+/-- historical: before the repair the kind converter was handed the `time.Duration` itself and its
+    `obj.(int64)` panicked; and `To` returned an `int64`, which reflect refuses to store in a
+    `time.Duration` slot -/
+theorem C08_fixed_named_duration_panicked (F : FOps) :
+    preFixFromLeafScalar F (.named 1 (.int .w64)) (.int 1000000000) = .panic ∧
+    (preFixNamedTo F (.named 1 (.int .w64)) (.int 3)).bind (assignField (.named 1 (.int .w64))) = .panic :=
+  ⟨rfl, rfl⟩
+
+/-- what is left of that finding: a pointer to a declared slice type never converts back (`To`
+    allocates a `*[]int`, which is not a `*IDs`) -/
+theorem C08_counterexample_declared_container (F : FOps) :
+    implRoundTrip F .create (.ptr (.named 10 (.slice (.int .w0)))) (.ptr (.seq (.cons (.int 1) .nil)))
+      = .ok (.list (.cons (.int 1) .nil), .panic) := rfl
+
+/-- **Repaired (C08-uint64-wraps-negative).**  An unsigned value crosses as the integer it is, or
+    is rejected: for every width, both entry points and every well-typed value, `From` gives the
+    script exactly `i` when `i < 2⁶³` (a byte object for `byte` through `createTypeConverter`) and
+    an error otherwise — never a different number. -/
+theorem C08_uint_from_exact (F : FOps) (m : Mode) (w : W) (i : Int)
+    (ht : hasTy (.uint w) (.int i) = true) :
+    fromGo F m (.uint w) (.int i) =
+      if m = .create ∧ w = .w8 then .ok (.byte i.toNat)
+      else if i ≥ two63 then .error else .ok (.int i) := by
+  by_cases hb : m = .create ∧ w = .w8
+  · obtain ⟨rfl, rfl⟩ := hb
+    simp [fromGo, convOK, fromLeaf, sel, byteFrom]
+  · have hsel : sel m (.uint w) = .scalar := by
+      unfold sel
+      simp [getSel, isScalarKind, under]
+      exact fun h1 h2 => hb ⟨h1, h2⟩
+    simp [fromGo, convOK, fromLeaf, hsel, under, scalarFrom, hb]
+
+/-- `uint64(1) << 63` is now rejected -/
+theorem C08_uint64_top_bit_rejected (F : FOps) :
+    fromGo F .create (.uint .w64) (.int 9223372036854775808) = .error := rfl
+
+/-- historical: before the repair `From` did `int64(v)`, and `uint64(1) << 63` reached the script
+    as −9223372036854775808 -/
+theorem C08_fixed_uint64_wrapped (F : FOps) :
+    preFixScalarFrom F (.uint .w64) (.int 9223372036854775808) = .ok (.int (-9223372036854775808)) := rfl
 
 /-- `[]*int{nil}`: the script sees `[nil]`, and handing that list back panics -/
 theorem C08_counterexample_nil_element (F : FOps) :
@@ -52,22 +116,35 @@ theorem C08_counterexample_ptr_iface (F : FOps) :
     implRoundTrip F .create (.ptr .iface) (.ptr (.iface (.int .w64) (.int 5)))
       = .ok (.int 5, .panic) := rfl
 
-/-- `WithGlobal("x", nil)` panics, and so does `risor.Eval` for a global without a converter
-    (`vm.New` panics on the error) -/
-theorem C08_counterexample_nil_global (F : FOps) : fromGlobal F none = .panic := rfl
-theorem C08_counterexample_global_error (F : FOps) :
-    fromGlobal F (some (.chan, .nilv)) = .error ∧ evalGlobal F (some (.chan, .nilv)) = .panic :=
+/-- **Repaired (C08-nil-global-panic).**  `WithGlobal("x", nil)` gives the script `nil`. -/
+theorem C08_nil_global (F : FOps) : fromGlobal F none = .ok .nil ∧ evalGlobal F none = .ok .nil :=
+  ⟨rfl, rfl⟩
+
+/-- **Repaired (C08-global-error-panics).**  `risor.Eval` with a global reports exactly what the
+    conversion of that global reports — in particular a global without a converter is an error
+    of `Eval`, not a panic. -/
+theorem C08_global_error_is_error (F : FOps) (g : Option (GoTy × GoVal)) :
+    evalGlobal F g = fromGlobal F g ∧ (fromGlobal F g = .error → evalGlobal F g = .error) :=
+  ⟨rfl, fun h => h⟩
+theorem C08_chan_global_rejected (F : FOps) : evalGlobal F (some (.chan, .nilv)) = .error := rfl
+
+/-- historical: before the repairs `AsObjects` dereferenced the nil type of an untyped nil, and
+    `vm.Run` built its VM with `vm.New`, which panics on the error of `applyOptions` -/
+theorem C08_fixed_nil_global_panicked (F : FOps) : preFixFromGlobal F none = .panic := rfl
+theorem C08_fixed_global_error_panicked (F : FOps) :
+    preFixFromGlobal F (some (.chan, .nilv)) = .error ∧ preFixEvalGlobal F (some (.chan, .nilv)) = .panic :=
   ⟨rfl, rfl⟩
 
 /-- the unchanged code violates the full statement -/
 theorem C08_counterexample_roundtrip : ¬ C08_full_roundtrip := by
   intro h
-  have := h F0 .create (.named 1 (.int .w64)) (.int 1000000000) (by decide)
+  have := h F0 .create (.slice (.ptr (.int .w0))) (.seq (.cons .nilv .nil)) (by decide)
   revert this
   decide
 
-/-- **Partial statement (round trip).**  Under the guard `clean` — no declared non-struct type,
-    no pointer to an interface type, no unsigned value ≥ 2⁶³, no nil pointer / nil interface as a
+/-- **Partial statement (round trip).**  Under the guard `clean` — no declared container type
+    (declared types of a basic kind and declared struct types are fine),
+    no pointer to an interface type, no nil pointer / nil interface as a
     container element, no non-nil pointer to a nil pointer / interface — the full statement holds,
     for all types of any depth, all values, both entry points, and every float semantics in which
     widening a float32 and narrowing it again is the identity. -/
@@ -109,6 +186,32 @@ theorem C08_partial_no_panic (F : FOps) (hF : ∀ b, F.narrow (F.widen b) = b)
   · intro hp; simp [hp, Outcome.map, specRoundTrip] at h
   · intro o ho hp; simp [ho, Outcome.map, specRoundTrip, hp] at h
 
+/-- **Globals through `risor.Eval` (repaired: C08-nil-global-panic, C08-global-error-panics).**
+    For the untyped nil, and for every well-typed value of every type under the guard `clean`:
+    `risor.Eval(…, WithGlobal(name, v))` does not panic; the script sees `nil` for nil, and
+    otherwise either `Eval` returns an error or the script sees an object representing `v`.  No
+    guard is left for the untyped nil or for types without a converter. -/
+theorem C08_partial_global (F : FOps) (hF : ∀ b, F.narrow (F.widen b) = b)
+    (g : Option (GoTy × GoVal)) :
+    match g with
+    | none => evalGlobal F g = .ok .nil
+    | some (ty, v) => hasTy ty v = true → clean .create ty v = true →
+        specRead F ty v (evalGlobal F g) = true := by
+  cases g with
+  | none => rfl
+  | some p =>
+    obtain ⟨ty, v⟩ := p
+    intro ht hcl
+    have h := C08_partial_roundtrip F hF .create ty v ht hcl
+    unfold implRoundTrip at h
+    show specRead F ty v (fromGo F .create ty v) = true
+    cases hfg : fromGo F .create ty v with
+    | error => rfl
+    | panic => simp [hfg, Outcome.map, specRoundTrip] at h
+    | ok o' =>
+      simp only [hfg, Outcome.map, specRoundTrip, Bool.and_eq_true] at h
+      simpa [specRead] using h.1
+
 /-! ### Non-vacuity -/
 
 -- a depth-3 type with a declared struct, a pointer, a map and a slice, and a value of it
@@ -123,8 +226,12 @@ example : hasTy
 example : clean .get (.array 2 (.uint .w8)) (.seq (.cons (.int 255) (.cons (.int 0) .nil))) = true := by decide
 example : clean .create (.slice .iface) (.seq (.cons (.iface (.int .w32) (.int (-5))) .nil)) = true := by decide
 -- the guard is violated by the witnesses
-example : clean .create (.named 1 (.int .w64)) (.int 1) = false := by decide
-example : clean .create (.uint .w64) (.int 9223372036854775808) = false := by decide
+-- a declared type of a basic kind is no longer excluded; a declared slice type is
+example : clean .create (.named 1 (.int .w64)) (.int 1) = true := by decide
+example : clean .create (.ptr (.named 10 (.slice (.int .w0)))) (.ptr (.seq .nil)) = false := by decide
+-- unsigned values ≥ 2⁶³ are no longer excluded: they are rejected with an error
+example : clean .create (.uint .w64) (.int 9223372036854775808) = true := by decide
+example : clean .create (.slice (.ptr (.int .w0))) (.seq (.cons .nilv .nil)) = false := by decide
 
 
 /-! ## 2. script → Go: field writes and method arguments -/
@@ -136,15 +243,85 @@ def C08_full_write : Prop :=
   ∀ (F : FOps) (m : Mode) (ty : GoTy) (o : Obj), wfW o = true →
     specWrite F ty o (toSlot F m ty o) = true
 
-/-- 300 written to an `int8` slot is stored as 44 (for every float semantics) -/
-theorem C08_counterexample_narrowing (F : FOps) :
-    toSlot F .get (.int .w8) (.int 300) = .ok (.int 44) := rfl
+/-- 2.7 written to an `int` slot is stored as 2 (a float object is still converted with a plain Go
+    conversion; here for the float semantics `F0'` in which `trunc` of that float is 2) -/
+theorem C08_counterexample_narrowing :
+    toSlot ⟨id, id, fun _ => 0, fun _ => 0, fun _ => 2, fun _ => none⟩ .get (.int .w0) (.float 4613262278296967578)
+      = .ok (.int 2) := rfl
 
-/-- a three-element list written to a `[2]int` slot panics; a one-element list is zero-padded -/
-theorem C08_counterexample_array_length (F : FOps) :
-    toSlot F .get (.array 2 (.int .w0)) (.list (.cons (.int 1) (.cons (.int 2) (.cons (.int 3) .nil)))) = .panic
-    ∧ toSlot F .get (.array 2 (.int .w0)) (.list (.cons (.int 1) .nil)) = .ok (.seq (.cons (.int 1) (.cons (.int 0) .nil))) := by
+/-- **Repaired (C08-lossy-narrowing, the integer part).**  An integer object written into an
+    integer slot of any width, through either entry point, for every float semantics: Go holds
+    exactly that integer when the type can represent it, and the write is rejected with an error
+    otherwise — never a wrapped value. -/
+theorem C08_int_write_exact (F : FOps) (m : Mode) (w : W) (i : Int) :
+    toSlot F m (.int w) (.int i) = (if inRangeS w.bits i then .ok (.int i) else .error) ∧
+    toSlot F m (.uint w) (.int i) = (if inRangeU w.bits i then .ok (.int i) else .error) := by
+  constructor
+  · cases hr : inRangeS w.bits i <;> cases m <;>
+      simp [toSlot, toGo, convOK, peel, liftPtr, baseMode, toBase, toLeaf, sel, getSel, isScalarKind,
+        under, scalarTo, hr, Outcome.bind, assignField, assignable, store, isIfaceKind]
+  · by_cases hb : m = .create ∧ w = .w8
+    · obtain ⟨rfl, rfl⟩ := hb
+      cases hr : inRangeU W.w8.bits i <;>
+        simp [toSlot, toGo, convOK, peel, liftPtr, baseMode, toBase, toLeaf, sel,
+          under, scalarTo, hr, Outcome.bind, assignField, assignable, store, isIfaceKind]
+    · have hsel : sel m (.uint w) = .scalar := by
+        unfold sel
+        simp [getSel, isScalarKind, under]
+        exact fun h1 h2 => hb ⟨h1, h2⟩
+      cases hr : inRangeU w.bits i <;>
+        simp [toSlot, toGo, convOK, peel, liftPtr, baseMode, toBase, toLeaf, hsel,
+          under, scalarTo, hr, Outcome.bind, assignField, assignable, store, isIfaceKind]
+
+/-- 300 into an `int8` slot and −1 into a `uint64` slot are now rejected -/
+theorem C08_int_out_of_range_rejected (F : FOps) :
+    toSlot F .get (.int .w8) (.int 300) = .error ∧ toSlot F .get (.uint .w64) (.int (-1)) = .error :=
+  ⟨rfl, rfl⟩
+
+/-- an integer object never falls under the narrowing guard of an integer slot any more -/
+theorem C08_int_narrowing_gone (F : FOps) (m : Mode) (w : W) (i : Int) :
+    writeGuards F m (.int w) (.int i) = [] ∧ writeGuards F m (.uint w) (.int i) = [] := by
+  constructor
+  · cases hr : inRangeS w.bits i <;> cases m <;>
+      simp [writeGuards, peel, baseMode, toLeaf, sel, getSel, isScalarKind, under, scalarTo, hr, repr, numIs]
+  · by_cases hb : m = .create ∧ w = .w8
+    · obtain ⟨rfl, rfl⟩ := hb
+      cases hr : inRangeU W.w8.bits i <;>
+        simp [writeGuards, peel, baseMode, toLeaf, sel, under, scalarTo, hr, repr, numIs]
+    · have hsel : sel m (.uint w) = .scalar := by
+        unfold sel
+        simp [getSel, isScalarKind, under]
+        exact fun h1 h2 => hb ⟨h1, h2⟩
+      cases hr : inRangeU w.bits i <;>
+        simp [writeGuards, peel, baseMode, toLeaf, hsel, under, scalarTo, hr, repr, numIs]
+
+/-- historical: before the repair `To` used plain Go conversions — 300 written to an `int8` slot
+    was stored as 44, −1 to a `uint64` slot as 2⁶⁴−1 (for every float semantics) -/
+theorem C08_fixed_int_narrowing_wrapped (F : FOps) :
+    preFixScalarTo F (.int .w8) (.int 300) = .ok (some (.int .w8, .int 44)) ∧
+    preFixScalarTo F (.uint .w64) (.int (-1)) = .ok (some (.uint .w64, .int 18446744073709551615)) := by
   constructor <;> rfl
+
+/-- a one-element list written to a `[2]int` slot is zero-padded (kept: risor's own
+    `TestArrayConverterInt` expects it) -/
+theorem C08_counterexample_array_length (F : FOps) :
+    toSlot F .get (.array 2 (.int .w0)) (.list (.cons (.int 1) .nil)) = .ok (.seq (.cons (.int 1) (.cons (.int 0) .nil))) := by
+  rfl
+
+/-- **Repaired (C08-array-length-unchecked, the panic half).**  A list with more items than the
+    array has elements is rejected with an error, whatever the element type, the items, the entry
+    point and the float semantics — no element is converted, nothing panics. -/
+theorem C08_array_longer_rejected (F : FOps) (m : Mode) (b : GoTy) (n : Nat) (t : GoTy) (os : Objs)
+    (hs : sel m b = .array n t) (hl : os.length > n) : toBase F m b (.list os) = .error := by
+  simp [toBase, hs, hl]
+
+theorem C08_array_longer_rejected_slot (F : FOps) :
+    toSlot F .get (.array 2 (.int .w0)) (.list (.cons (.int 1) (.cons (.int 2) (.cons (.int 3) .nil)))) = .error := rfl
+
+/-- historical: before the repair `ArrayConverter.To` entered its loop without comparing the
+    lengths, and the loop runs into reflect's "array index out of range" on the third item -/
+theorem C08_fixed_array_longer_panicked (F : FOps) :
+    toArr F (.int .w0) 2 (.cons (.int 1) (.cons (.int 2) (.cons (.int 3) .nil))) = .panic := rfl
 
 /-- a proxy of another struct type is accepted by `To` and the assignment panics -/
 theorem C08_counterexample_proxy_type (F : FOps) :
@@ -153,14 +330,16 @@ theorem C08_counterexample_proxy_type (F : FOps) :
 
 theorem C08_counterexample_write : ¬ C08_full_write := by
   intro h
-  have := h F0 .get (.array 2 (.int .w0)) (.list (.cons (.int 1) (.cons (.int 2) (.cons (.int 3) .nil)))) (by decide)
+  have := h F0 .get (.array 2 (.int .w0)) (.list (.cons (.int 1) .nil)) (by decide)
   revert this
   decide
 
 /-- **Partial statement (writes).**  Under the guard `writeAllGuards … = []` — no declared
-    non-struct type and no pointer to an interface in the slot type; numbers exactly representable
-    in the target type; no nil element for pointer / interface / slice / map element types; lists
-    of exactly the array's length; proxies of exactly the target struct type — the conversion of
+    non-struct type and no pointer to an interface in the slot type; float objects exactly
+    representable in the target type and integers exactly representable in a float target (an
+    integer that does not fit an integer target is rejected, no guard needed); no nil element for
+    pointer / interface / slice / map element types; lists not shorter than the array (a longer
+    one is rejected, no guard needed); proxies of exactly the target struct type — the conversion of
     ANY script object into a slot of ANY type never panics, and when accepted Go holds exactly
     what the script passed. -/
 theorem C08_partial_write (F : FOps) (m : Mode) (ty : GoTy) (o : Obj) (hw : wfW o = true)
@@ -192,9 +371,10 @@ theorem C08_counterexample_struct_field (F : FOps) :
 
 theorem C08_counterexample_setattr : ¬ C08_full_setattr := by
   intro h
-  have := h F0 (.ptr (.struct (.cons (.int .w8) .nil))) (.cons (.int 0) .nil) 0 (.int .w8) (.int 300) rfl rfl
-  have hs : setAttr F0 (.ptr (.struct (.cons (.int .w8) .nil))) (.ptr (.struct (.cons (.int 0) .nil))) 0 (.int 300)
-      = .ok (.ptr (.struct (.cons (.int 44) .nil))) := by decide
+  -- a float object written to an `int8` field is truncated (in `F0` every float truncates to 0)
+  have := h F0 (.ptr (.struct (.cons (.int .w8) .nil))) (.cons (.int 7) .nil) 0 (.int .w8) (.float 300) rfl rfl
+  have hs : setAttr F0 (.ptr (.struct (.cons (.int .w8) .nil))) (.ptr (.struct (.cons (.int 7) .nil))) 0 (.float 300)
+      = .ok (.ptr (.struct (.cons (.int 0) .nil))) := by decide
   rw [hs] at this
   obtain ⟨x, hx, hr⟩ := this
   simp only [Vals.set, GoVal.ptr.injEq, GoVal.struct.injEq, Vals.cons.injEq, and_true] at hx
@@ -320,6 +500,7 @@ theorem C08_partial_call (F : FOps) (pt : GoTy) (o : Obj) (hw : wfW o = true)
             obtain ⟨hu, hst⟩ := sel_pointer_inv .create pt t hs
             have hpt := under_self pt (tyGuards_nil pt hgt).1
               (not_structKind_of_under pt _ hu (by simp [isStructKind, under]))
+              (by simp [isScalarKind, hu])
             rw [hu] at hpt
             rw [← hpt, peel_ptr_other t hst] at hk
             simp at hk
@@ -347,14 +528,36 @@ def C08_full_call_args : Prop :=
   ∀ (F : FOps) (pts : Fields) (os : Objs), wfWs os = true →
     specArgs F pts os (callArgs F pts os) = true
 
-/-- `h.TakeInt(1, 2)`: the call is made with `1`, the second argument is silently dropped -/
-theorem C08_counterexample_surplus_argument :
-    callArgs F0 (.cons (.int .w0) .nil) (.cons (.int 1) (.cons (.int 2) .nil))
+/-- **Repaired (C08-surplus-arguments-dropped).**  A call with more arguments than the method has
+    parameters never reaches the Go method: for parameter and argument lists of any length, any
+    types and objects, `Proxy.call` does not return normally (it reports the args error — or the
+    failure of an earlier argument's conversion). -/
+theorem C08_surplus_rejected (F : FOps) (pts : Fields) (os : Objs) (h : pts.length < os.length)
+    (vs : Vals) : callArgs F pts os ≠ .ok vs := by
+  unfold callArgs
+  cases hc : convArgs F pts os with
+  | error => simp [Outcome.bind]
+  | panic => simp [Outcome.bind]
+  | ok xs =>
+    simp only [Outcome.bind]
+    split
+    · simp
+    · simp [h]
+
+/-- `h.TakeInt(1, 2)` is an args error -/
+theorem C08_surplus_argument_rejected :
+    callArgs F0 (.cons (.int .w0) .nil) (.cons (.int 1) (.cons (.int 2) .nil)) = .error := by decide
+
+/-- historical: before the repair `h.TakeInt(1, 2)` made the call with `1` and silently dropped
+    the second argument -/
+theorem C08_fixed_surplus_was_dropped :
+    preFixCallArgs F0 (.cons (.int .w0) .nil) (.cons (.int 1) (.cons (.int 2) .nil))
       = .ok (.cons (.int 1) .nil) := by decide
 
+/-- the full statement still fails: `h.TakeInt(nil)` calls the method with 0 -/
 theorem C08_counterexample_call_args : ¬ C08_full_call_args := by
   intro h
-  have := h F0 (.cons (.int .w0) .nil) (.cons (.int 1) (.cons (.int 2) .nil)) rfl
+  have := h F0 (.cons (.int .w0) .nil) (.cons .nil .nil) rfl
   revert this
   decide
 
@@ -364,8 +567,9 @@ theorem C08_too_few_rejected (F : FOps) :
     callArgs F (.cons .iface (.cons .str (.cons (.int .w0) .nil))) (.cons .nil .nil) = .error := rfl
 
 /-- **Partial statement (every argument position).**  For parameter lists and argument lists of
-    ANY length: under `callNGuards … = []` (no surplus argument, and in every position the guards
-    of `C08_partial_call`) `Proxy.call` never panics, too few arguments are rejected, and when the
+    ANY length: under `callNGuards … = []` (in every position the guards of `C08_partial_call`;
+    nothing is demanded of the NUMBER of arguments any more) `Proxy.call` never panics, too few and
+    too many arguments are rejected, and when the
     method is invoked each parameter holds a Go value representing the argument the script passed
     in that same position. -/
 theorem C08_partial_call_args (F : FOps) (pts : Fields) (os : Objs) (hw : wfWs os = true)
@@ -374,17 +578,23 @@ theorem C08_partial_call_args (F : FOps) (pts : Fields) (os : Objs) (hw : wfWs o
   rcases convArgs_good F (C08_partial_call F) pts os hw hg with he | ⟨xs, hx, hr⟩
   · simp [he, Outcome.bind, specArgs]
   · simp only [hx, Outcome.bind, toList_map_length]
-    rcases hr with hl | hr
+    rcases hr with hl | hl | hr
     · simp [hl, specArgs]
+    · by_cases hl' : xs.length < pts.length
+      · simp [hl', specArgs]
+      · simp [hl', hl, specArgs]
     · have := reprArgs_length F pts xs os hr
-      simp [this, allSome_map_some, specArgs, hr]
+      have hlo := reprArgs_lengths F pts xs os hr
+      simp [this, hlo, allSome_map_some, specArgs, hr]
 
 example : callNGuards F0 (.cons (.ptr (.int .w0)) (.cons .str (.cons (.int .w0) .nil)))
     (.cons .nil (.cons (.str [97]) (.cons (.int 3) .nil))) = [] := by decide
 example : callArgs F0 (.cons (.ptr (.int .w0)) (.cons .str (.cons (.int .w0) .nil)))
     (.cons .nil (.cons (.str [97]) (.cons (.int 3) .nil)))
     = .ok (.cons .nilv (.cons (.str [97]) (.cons (.int 3) .nil))) := by decide
-example : callNGuards F0 (.cons (.int .w0) .nil) (.cons (.int 1) (.cons (.int 2) .nil)) ≠ [] := by decide
+-- a surplus argument is no longer excluded by the guard: the call is rejected
+example : callNGuards F0 (.cons (.int .w0) .nil) (.cons (.int 1) (.cons (.int 2) .nil)) = [] := by decide
+example : callNGuards F0 (.cons (.int .w0) .nil) (.cons .nil .nil) ≠ [] := by decide
 
 
 /-! ### Non-vacuity for the write direction -/
@@ -394,7 +604,12 @@ example : writeAllGuards F0 .get (.slice (.ptr (.int .w16)))
 example : setGuards F0 (.mapStr .str) (.map [[97]] (.cons (.str [120]) .nil)) = [] := by decide
 example : callGuards F0 (.ptr (.int .w0)) .nil = [] := by decide
 example : callGuards F0 (.int .w0) .nil ≠ [] := by decide
-example : setGuards F0 (.int .w8) (.int 300) ≠ [] := by decide
+-- an integer that does not fit is no longer excluded by the guard (it is rejected); a float is
+example : setGuards F0 (.int .w8) (.int 300) = [] := by decide
+example : setGuards F0 (.int .w8) (.float 300) ≠ [] := by decide
+-- a list longer than the array is no longer excluded either; a shorter one is
+example : setGuards F0 (.array 1 (.int .w0)) (.list (.cons (.int 1) (.cons (.int 2) .nil))) = [] := by decide
+example : setGuards F0 (.array 2 (.int .w0)) (.list (.cons (.int 1) .nil)) ≠ [] := by decide
 
 /-! ## 3. A reused VM: globals supplied again -/
 
